@@ -74,6 +74,19 @@ Theorem C15_result_dtype_order_independent : forall c ds ds',
   Permutation ds ds' -> result_dtype c ds = result_dtype c ds'.
 Proof. intros c ds ds' H. apply result_dtype_perm; [exact H|reflexivity]. Qed.
 
+(* One place in the library finds the common type differently: ArrayAPIBackend's multi-argument
+   reductions go through xp.asarray([a, b, ...]), which promotes pairwise from the left.  That type
+   is still wide enough for every argument, but it DOES depend on the order and is not always
+   np.result_type (NumPy disagrees with itself: int16, uint16, float32 -> float64 by asarray,
+   float32 by np.stack and in any other order); XArrayBackend returns the order-independent type. *)
+Theorem C15_asarray_dtype_holds_every_argument : forall ds D d,
+  promote_seq ds = Some D -> In d ds -> converts d D = true.
+Proof. exact promote_seq_upper. Qed.
+
+Theorem C15_asarray_dtype_order_dependent :
+  exists ds ds', Permutation ds ds' /\ promote_seq ds <> promote_seq ds' /\ promote_seq ds <> promote_list ds.
+Proof. exact promote_seq_order_dependent. Qed.
+
 (* it holds the values of every argument: each argument's type widens to it without loss, the one
    exception NumPy makes being 64-bit integers sent to float64 *)
 Theorem C15_common_dtype_holds_every_argument : forall ds D d,
@@ -91,12 +104,12 @@ Proof. intros d D q HW HR. split; [eapply widens_repr|eapply widens_cast_id]; ea
 
 (* hence, on arguments of any mixture of element types that widen to the common one, the typed
    reference (convert, then operate) is the exact reference of Backends/Ops.v with the result type attached *)
-Theorem C15_typed_reference_is_exact : forall c ds D,
-  promote_list ds = Some D ->
+Theorem C15_typed_reference_is_exact : forall seq c ds D,
+  common_of seq ds = Some D ->
   Forall2 (fun d t => all_repr d t = true) ds (call_inputs c) ->
   Forall (fun d => widens d D = true) ds ->
-  apply_t c ds = bind (apply c) (fun t => Ok (op_dtype c D, t)).
-Proof. exact apply_t_exact. Qed.
+  apply_with (common_of seq) c ds = bind (apply c) (fun t => Ok (op_dtype c D, t)).
+Proof. intros seq. exact (apply_with_exact (common_of seq)). Qed.
 
 (* the element type of the first argument is NOT it: there are calls on which a back-end that
    preallocates with args[0].dtype returns other values and another type than the reference, and
@@ -128,15 +141,17 @@ Proof. vm_compute. repeat split; reflexivity. Qed.
 
 Example C15_nonvacuous_typed :
   let c := CStack [t1 1; th 5 2] 0%Z in
-  promote_list [DI8; DF64] = Some DF64 /\
+  common_of false [DI8; DF64] = Some DF64 /\ common_of true [DI8; DF64] = Some DF64 /\
   Forall2 (fun d t => all_repr d t = true) [DI8; DF64] (call_inputs c) /\
   Forall (fun d => widens d DF64 = true) [DI8; DF64] /\
   (exists t, apply_t c [DI8; DF64] = Ok (DF64, t) /\ shape t = [2%nat; 1%nat]) /\
   typed_result_is (CReduce "sum" [t1 100; t1 100; t1 100] None) [DI8; DI8; DI8] DI64 [1%nat] [300%Z] = true /\
-  check_dtype_only (CBin "divide" (t1 1) (t1 2), [DI16; DF32], DF32) = true.
+  check_dtype_only (CBin "divide" (t1 1) (t1 2), [DI16; DF32], DF32, false) = true /\
+  check_dtype_only (CReduce "min" [] None, [DI16; DU16; DF32], DF64, true) = true /\
+  check_dtype_only (CReduce "min" [] None, [DI16; DU16; DF32], DF32, false) = true.
 Proof.
-  cbv zeta. split; [reflexivity|]. split; [repeat constructor|]. split; [repeat constructor|].
-  split; [eexists; split; vm_compute; reflexivity|]. split; vm_compute; reflexivity.
+  cbv zeta. split; [reflexivity|]. split; [reflexivity|]. split; [repeat constructor|]. split; [repeat constructor|].
+  split; [eexists; split; vm_compute; reflexivity|]. repeat split; vm_compute; reflexivity.
 Qed.
 
 Example C15_nonvacuous_marked :
@@ -181,6 +196,8 @@ Print Assumptions C15_multi_is_stack_then_reduce.
 Print Assumptions C15_common_dtype_order_independent.
 Print Assumptions C15_result_dtype_order_independent.
 Print Assumptions C15_common_dtype_holds_every_argument.
+Print Assumptions C15_asarray_dtype_holds_every_argument.
+Print Assumptions C15_asarray_dtype_order_dependent.
 Print Assumptions C15_widening_preserves_values.
 Print Assumptions C15_typed_reference_is_exact.
 Print Assumptions C15_first_argument_dtype_refuted.
